@@ -17,7 +17,7 @@ PIX = dict(g8=('gil::gray8_pixel_t', 'gil::gray32s_pixel_t', 'int'), rgb8=('gil:
            g8f=('gil::gray8_pixel_t', 'gil::gray32f_pixel_t', 'float'))
 KS = ['kissat:150', 'cadical']
 FNS = [(a, c, f) for a in (0, 1) for c in (0, 1) for f in (0, 1)]     # (axis, convolve, fixed)
-def corr(ent, fn, pix, n, m, K, c, opt, tier, at=None, to=300):
+def corr(ent, fn, pix, n, m, K, c, opt, tier, at=None, to=300, mask=-1):
     """n = length along the filtered axis, m = the other dimension"""
     axis, conv, fixed = fn
     w, h = (n, m) if axis == 0 else (m, n)
@@ -25,18 +25,21 @@ def corr(ent, fn, pix, n, m, K, c, opt, tier, at=None, to=300):
     defs = dict(C15_AXIS=axis, C15_CONV=conv, C15_KFIX=(K if fixed else 0), C15_SRC_PIX=sp, C15_ACC_PIX=ap, C15_KER_T=kt)
     f = '%s_%s%s' % ('convolve' if conv else 'correlate', 'cols' if axis else 'rows', '_fixed' if fixed else '')
     ox, oy = at if at else (-1, -1)
-    name = '%s/%s/%s/%s/%dx%d_k%dc%d/%s' % (ent, f, pix, opt, w, h, K, c, 'all' if ox < 0 else 'at_%d_%d' % (ox, oy))
-    # loops: rows (h), pixels of a row + kernel overhang (n + K - 1), kernel (K), harness tap arrays (7)
-    return Q(name, 'C15/corr.cpp', 'h_' + ent, defs=defs, params=[w, h, K, c, OPTS[opt], ox, oy], unwind=max(n + K + 1, m + 2, 9), rt_unwind=20, tier=tier, timeout=to, solvers=KS)
-def conv2d(pix, kt, w, h, K, cx, cy, tier, at=None, to=300):
+    name = '%s/%s/%s/%s/%dx%d_k%dc%d/%s%s' % (ent, f, pix, opt, w, h, K, c, 'all' if ox < 0 else 'at_%d_%d' % (ox, oy), '' if mask < 0 else '_taps_' + '_'.join(str(k) for k in range(K) if (mask >> k) & 1))
+    # loops: pixels of a row + kernel overhang (n + K - 1), kernel (K), harness tap arrays (7), harness pixel loops (counted over the whole nest: w*h*channels)
+    return Q(name, 'C15/corr.cpp', 'h_' + ent, defs=defs, params=[w, h, K, c, OPTS[opt], ox, oy, mask], unwind=max(n + K + 1, 9, w * h * (3 if pix == 'rgb8' else 1) + 3), rt_unwind=20, tier=tier, timeout=to, solvers=KS)
+def conv2d(pix, kt, w, h, K, cx, cy, tier, at=None, mask=-1, mode=0, to=300):
     sp, dp = dict(g8=('gil::gray8_pixel_t', 'gil::gray32f_pixel_t'), rgb8=('gil::rgb8_pixel_t', 'gil::rgb32f_pixel_t'))[pix]
     ox, oy = at if at else (-1, -1)
-    name = 'conv2d/%s_%s/%dx%d_k%dc%d%d/%s' % (pix, kt, w, h, K, cx, cy, 'all' if ox < 0 else 'at_%d_%d' % (ox, oy))
-    return Q(name, 'C15/conv2d.cpp', 'h_conv2d', defs=dict(C15_SRC_PIX=sp, C15_DST_PIX=dp, C15_KER_T=kt), params=[w, h, K, cx, cy, ox, oy], unwind=27, rt_unwind=40, tier=tier, timeout=to, solvers=KS)
+    kind = 'full' if mask < 0 else 'impulse_' + '_'.join(str(k) for k in range(K * K) if (mask >> k) & 1)
+    name = 'conv2d/%s_%s/%s%s/%dx%d_k%dc%d%d/%s' % (pix, kt, kind, '' if mode == 0 else '_floatref', w, h, K, cx, cy, 'all' if ox < 0 else 'at_%d_%d' % (ox, oy))
+    # convolve_2d_impl's innermost loop: the checker counts its iterations over the whole call
+    return Q(name, 'C15/conv2d.cpp', 'h_conv2d', defs=dict(C15_SRC_PIX=sp, C15_DST_PIX=dp, C15_KER_T=kt), params=[w, h, K, cx, cy, ox, oy, mask, mode],
+             unwind=max(w * h * K * K * (3 if pix == 'rgb8' else 1) + 3, 27), rt_unwind=40, tier=tier, timeout=to, solvers=KS)
 def extend(pix, fn, w, h, n, opt, tier, to=300):
     sp = dict(g8='gil::gray8_pixel_t', rgb8='gil::rgb8_pixel_t', g16='gil::gray16_pixel_t')[pix]
     name = 'extend/%s/%s/%s/%dx%d_n%d' % (('row', 'col', 'boundary')[fn], pix, opt, w, h, n)
-    return Q(name, 'C15/extend.cpp', 'h_extend', defs=dict(C15_SRC_PIX=sp), params=[w, h, n, OPTS[opt], fn], unwind=max(w, h) + 2 * n + 3, rt_unwind=40, tier=tier, timeout=to, solvers=KS)
+    return Q(name, 'C15/extend.cpp', 'h_extend', defs=dict(C15_SRC_PIX=sp), params=[w, h, n, OPTS[opt], fn], unwind=max((w + 2 * n) * (h + 2 * n) * (3 if pix == 'rgb8' else 1) + 3, 8), rt_unwind=40, tier=tier, timeout=to, solvers=KS)
 def centres(K): return list(range(K))
 def queries(tier, seed):
     qs = []; Q_ = 'quick'; T_ = 'thorough'
@@ -73,33 +76,50 @@ def queries(tier, seed):
     for oi, opt in enumerate(opts):
         qs.append(corr('sum', FNS[(2 * oi + 1) % 8], 'rgb8', 3, 1, 3, oi % 3, opt, Q_ if oi in (2, 4) else T_))
         qs.append(corr('sum', FNS[(2 * oi) % 8], 'g16', 3, 2, 3, (oi + 1) % 3, opt, Q_ if oi in (1, 3) else T_))
-        qs.append(corr('sum', FNS[(3 * oi + 2) % 8], 'g8f', 3, 1, 3, (oi + 2) % 3, opt, Q_ if oi in (0, 4) else T_))
-    # ---- (H) thorough: every function x option x axis length x kernel size x centre
-    for fn in FNS:
-        for opt in opts:
-            for n in (1, 2, 3, 5, 6):
-                for K in (1, 2, 3, 4, 5):
-                    if fn[2] and K % 2 == 0: continue
-                    for c in centres(K):
-                        if K == 4 and c in (0, 2): continue
-                        if K == 5 and c in (1, 3) and n != 5: continue
-                        if n == 6 and K != 5: continue
-                        qs.append(corr('sum', fn, 'g8', n, 1 + (n + K + c) % 2, K, c, opt, T_, to=600))
+        # float32 accumulator: exact for integer taps; at most two non-zero terms per sum (see the harness header)
+        qs.append(corr('sum', FNS[(3 * oi + 2) % 8], 'g8f', 3, 1, 1, 0, opt, Q_))
+        qs.append(corr('sum', FNS[(3 * oi + 1) % 8], 'g8f', 3, 1, 3, (oi + 2) % 3, opt, Q_ if oi in (0, 3) else T_, mask=1 << (oi % 3)))
+        qs.append(corr('sum', DYN[oi % 4], 'g8f', 2, 1, 2, oi % 2, opt, T_, to=900, at=(0, 0)))
+        qs.append(corr('sum', FNS[(3 * oi) % 8], 'g8f', 3, 1, 3, oi % 3, opt, T_, to=900, mask=5 if oi % 2 else 6, at=((1, 0) if not FNS[(3 * oi) % 8][0] else (0, 1))))
+    # ---- (H) thorough: every function x option x kernel size 1..5 x every centre; axis length rotating over 1,2,3,5,6 (narrower / equal / wider than the kernel)
+    NS = (1, 2, 3, 5, 6)
+    for fi, fn in enumerate(FNS):
+        for oi, opt in enumerate(opts):
+            for K in (1, 2, 3, 4, 5):
+                if fn[2] and K % 2 == 0: continue
+                for c in centres(K):
+                    r = fi + oi + K + c
+                    ns = [NS[r % 5], NS[(r + 2) % 5]] if K <= 3 else [NS[r % 5]]
+                    for n in ns:
+                        qs.append(corr('sum', fn, 'g8', n, 1 if (opt in ('constant', 'padded') and n * K >= 15) else 1 + (n + K + c) % 2, K, c, opt, T_, to=600))
     for fn in FNS:
         for opt in opts:
             qs.append(corr('conv_is_corr_reversed', (fn[0], 1, fn[2]), 'g8', 5, 1, 5 if fn[2] else 4, 1, opt, T_, to=600))
             if fn[0] == 1: qs.append(corr('cols_is_rows_transposed', fn, 'g8', 5, 2, 5 if fn[2] else 4, 3, opt, T_, to=600))
-            qs.append(corr('sum', fn, 'g8f', 5, 1, 5 if fn[2] else 4, 2, opt, T_, to=600))
-            qs.append(corr('sum', fn, 'rgb8', 4, 2, 3, 1, opt, T_, to=600))
-    # ---- convolve_2d
-    for (w, h, K, cx, cy, t) in [(3, 3, 3, 1, 1, Q_), (3, 2, 3, 0, 2, Q_), (2, 3, 3, 2, 0, Q_), (1, 1, 3, 1, 1, Q_), (3, 2, 2, 0, 1, Q_), (2, 2, 2, 1, 0, Q_), (3, 3, 1, 0, 0, Q_), (0, 2, 3, 1, 1, Q_), (2, 0, 3, 1, 1, Q_),
-                                 (3, 3, 3, 0, 0, T_), (3, 3, 3, 2, 2, T_), (3, 3, 3, 1, 0, T_), (3, 3, 3, 2, 1, T_), (3, 3, 2, 0, 0, T_), (3, 3, 2, 1, 1, T_), (4, 3, 3, 1, 1, T_)]:
-        qs.append(conv2d('g8', 'float', w, h, K, cx, cy, t))
-    qs.append(conv2d('g8', 'int', 3, 3, 3, 1, 1, Q_))
-    qs.append(conv2d('g8', 'float', 3, 3, 3, 1, 1, Q_, at=(0, 0)))
-    qs.append(conv2d('g8', 'float', 3, 3, 3, 1, 1, Q_, at=(1, 1)))
-    qs.append(conv2d('rgb8', 'float', 2, 2, 3, 1, 1, T_))
-    qs.append(conv2d('g8', 'float', 3, 3, 5, 2, 2, T_, to=900))
+            qs.append(corr('sum', fn, 'g8f', 4, 1, 5 if fn[2] else 4, 2, opt, T_, to=600, mask=1 << (2 if fn[1] else 1)))
+            qs.append(corr('sum', fn, 'rgb8', 4, 1 if opt == 'constant' else 2, 3, 1, opt, T_, to=600))
+    # ---- convolve_2d (float accumulation: see the harness header for why size-3 kernels are checked tap by tap)
+    qs.append(conv2d('g8', 'float', 3, 3, 1, 0, 0, Q_))
+    qs.append(conv2d('g8', 'float', 1, 1, 3, 1, 1, Q_))
+    qs.append(conv2d('g8', 'float', 0, 2, 3, 1, 1, Q_)); qs.append(conv2d('g8', 'float', 2, 0, 3, 1, 1, Q_))
+    # size 2: two symbolic taps (the other two are 0), one output pixel per query (sums of more than two non-zero float terms: no verdict in 300 s)
+    PAIRS = [3, 5, 6, 9, 10, 12]
+    for i, (cx, cy) in enumerate([(0, 0), (1, 0), (0, 1), (1, 1)]):
+        for j, m in enumerate(PAIRS):
+            at = (1 - cx + (j % 2), 1 - cy)          # an output pixel all four taps of which lie inside the 3x2 image
+            qs.append(conv2d('g8', 'int', 3, 2, 2, cx, cy, Q_ if (i + j) % 6 == 0 else T_, at=at, mask=m))
+            if (i + j) % 3 == 0: qs.append(conv2d('g8', 'float', 3, 2, 2, cx, cy, T_, at=at, mask=m, to=900))
+        for k in range(4): qs.append(conv2d('g8', 'float', 3, 2, 2, cx, cy, Q_ if k == i else T_, mask=1 << k))
+    qs.append(conv2d('g8', 'int', 3, 3, 3, 1, 1, Q_, at=(0, 0), mask=17)); qs.append(conv2d('g8', 'float', 3, 3, 3, 1, 1, T_, at=(0, 0), mask=10, to=900))
+    for cx in range(3):                                                   # size 3: one symbolic tap per query, every output pixel
+        for cy in range(3):
+            for k in range(9):
+                qk = (cx, cy) == (1, 1) or ((cx, cy) in ((0, 2), (2, 0)) and k in (0, 4, 8))
+                qs.append(conv2d('g8', 'float', 3, 3 if (cx + cy) % 2 == 0 else 2, 3, cx, cy, Q_ if qk else T_, mask=1 << k))
+    for k in (0, 5): qs.append(conv2d('rgb8', 'float', 2, 2, 3, 1, 1, T_, mask=1 << k))
+    qs.append(conv2d('g8', 'int', 3, 3, 3, 1, 1, T_, mask=1 << 4))
+    # size 3, every tap symbolic, against the float32 sum in convolve_2d's accumulation order (193 s when measured)
+    for at in ((0, 0), (1, 1)): qs.append(conv2d('g8', 'float', 3, 3, 3, 1, 1, T_, at=at, mode=2, to=900))
     # ---- extend_row / extend_col / extend_boundary
     for fn in (0, 1, 2):
         for oi, opt in enumerate(('ext_zero', 'constant', 'padded')):
